@@ -75,4 +75,77 @@ Export ==
     Finished =>
         JsonSerialize(ExportDir \o "/b" \o ToString(TLCGet("stats").traces) \o "_" \o ToString(Len(sched)) \o ".json",
                       [targets |-> Targets, steps |-> sched])
+
+-----------------------------------------------------------------------------
+(* Coverage-directed behaviours (used with exhaustive BFS).                  *)
+(* The CONTEXT of a pending reconcile is an abstraction of everything the    *)
+(* reconciler reads: phases of the record, of its neighbours and of its      *)
+(* transaction, and the order relations between the indexes it compares.     *)
+(* While TLC explores the bounded model breadth-first, the first state in    *)
+(* which a pending reconcile has a context not seen before is printed with   *)
+(* the schedule that leads to it (a shortest witness) plus that reconcile:   *)
+(* "one implementation test per distinct transition context".  The harness   *)
+(* replays the witnesses on the real code.  Enabled by the environment       *)
+(* variable COVER; registers are per worker, duplicates are merged outside.  *)
+
+CoverOn == "COVER" \in DOMAIN IOEnv
+Cmp(a, b) == IF a < b THEN "<" ELSE IF a = b THEN "=" ELSE ">"
+PhStr(ph) == ph.init \o ph.val \o ph.com \o ph.app \o ph.abt
+
+CtxProp(id) ==
+    IF id \notin DOMAIN props THEN <<"prop", "missing">>
+    ELSE LET p == props[id]
+             pr == PID(p.t, p.prev)
+             nx == PID(p.t, p.next)
+         IN <<"prop", p.kind, PhStr(p.ph), p.prev = 0, p.next = 0,
+              IF p.t \in DOMAIN cfgs
+              THEN LET cfg == cfgs[p.t] IN
+                   <<Cmp(cfg.proposed, p.i), Cmp(cfg.committed, p.i), Cmp(cfg.committed, p.prev), Cmp(cfg.applied, p.i),
+                     Cmp(cfg.applied, p.prev), Cmp(cfg.index, p.i), cfg.state, cfg.master # "", Cmp(cfg.term, cfg.aterm),
+                     MasterConn(Pack, cfg, p.t) # NoId, failq[p.t] # << >> >>
+              ELSE <<"nocfg">>,
+              IF p.prev # 0 /\ pr \in DOMAIN props THEN PhStr(props[pr].ph) ELSE "-",
+              IF p.next # 0 /\ nx \in DOMAIN props THEN PhStr(props[nx].ph) ELSE "-",
+              IF p.i <= Len(txs) THEN txs[p.i].state ELSE "-",
+              IF p.kind = "rollback" /\ p.rb >= 1 /\ p.rb <= Len(txs) /\ PID(p.t, p.rb) \in DOMAIN props
+              THEN <<PhStr(props[PID(p.t, p.rb)].ph), p.t \in DOMAIN cfgs /\ cfgs[p.t].index = p.rb>> ELSE <<"-">> >>
+
+CtxTx(i) ==
+    IF i < 1 \/ i > Len(txs) THEN <<"tx", "missing">>
+    ELSE LET tx == txs[i] IN
+         <<"tx", tx.kind, tx.state, PhStr(tx.ph), tx.sync,
+           {IF id \in DOMAIN props THEN PhStr(props[id].ph) ELSE "missing" : id \in tx.props},
+           Cardinality(tx.props) > 1,
+           IF i > 1 THEN <<txs[i - 1].state, txs[i - 1].ph.init>> ELSE <<"-">>,
+           i < Len(txs)>>
+
+CtxCfg(t) ==
+    IF t \notin DOMAIN cfgs THEN <<"cfg", "missing">>
+    ELSE LET cfg == cfgs[t] IN
+         <<"cfg", cfg.state, Cmp(cfg.term, cfg.aterm), cfg.master # "", cfg.applied = 0, Cmp(cfg.applied, cfg.committed),
+           MasterConn(Pack, cfg, t) # NoId, failq[t] # << >>, Cardinality({cfg.avalues[x].i : x \in DOMAIN cfg.avalues})>>
+
+CtxMast(t) ==
+    IF t \notin DOMAIN cfgs THEN <<"mast", "missing">>
+    ELSE LET cfg == cfgs[t]
+             live == {r \in DOMAIN rels : rels[r] = t}
+         IN <<"mast", cfg.master = "", cfg.master \in live, Cardinality(live), cfg.state, Cmp(cfg.term, cfg.aterm)>>
+
+CtxConn(id) == <<"conn", id \in DOMAIN conns, id \in DOMAIN rels>>
+
+CtxOf(c, id) ==
+    CASE c = "tx" -> CtxTx(id) [] c = "prop" -> CtxProp(id) [] c = "cfg" -> CtxCfg(id)
+      [] c = "mast" -> CtxMast(id) [] c = "conn" -> CtxConn(id)
+
+ASSUME TLCSet(7, {})
+
+Cover ==
+    (CoverOn /\ up /\ infl = EmptyFn) =>
+        LET pend == UNION {{<<c, id>> : id \in q[c]} : c \in Ctls}
+            new  == {x \in pend : CtxOf(x[1], x[2]) \notin TLCGet(7)}
+        IN new = {} \/
+           /\ TLCSet(7, TLCGet(7) \cup {CtxOf(x[1], x[2]) : x \in new})
+           /\ \A x \in new :
+                PrintT(<<"COVER", ToJson([ctx |-> ToString(CtxOf(x[1], x[2])), targets |-> Targets,
+                                          steps |-> Append(sched, [k |-> "run", c |-> x[1], id |-> IdStr(x[1], x[2])])])>>)
 =============================================================================
